@@ -10,6 +10,7 @@
     scope names <path> <tree>        ok <id>=<full_name>/<name_ref>,…  for every name id
                                        full_name: s:… | !<ns string>   name_ref: prefix id | !<ns string>
     scope node <path> <tree>         ok name=<n|-> ref=<-|n:p|!<ns string>>
+    scope writable <path> <tree>     ok <t|f>               to_string(node) does not fail with MissingPrefix
     scope dedup <path> <tree>        ok <tree>
   The vocabulary (`vocab …` line) supplies the id ranges and the strings.
 -/
@@ -65,6 +66,7 @@ def scopeQuery (env : Env) (op : String) (t : Tree) (path : Path) : Option Strin
       | .ok (some (n, p)) => s!"{n}:{p}"
       | .error e => showMissing env e
     some s!"ok name={nm} ref={r}"
+  | "writable" => some ("ok " ++ (if namesWritableChain env chain sub then "t" else "f"))
   | "dedup" => do
     let t' ← deduplicateNamespaces env t path
     some ("ok " ++ showTree t')
